@@ -290,8 +290,19 @@ Section Refine.
       end
     end.
 
+  (** under every storable plain hostname the trie holds exactly the
+      configuration's rule list, stored under that very hostname *)
   Definition tree_inv (t : trie leafv) (T : bytes -> leafv) : Prop :=
-    forall k, good_key k -> option_map snd (getk leafv re_match t k) = nonempty (T k).
+    forall k, good_key k -> getk leafv re_match t k = option_map (fun l => (k, l)) (nonempty (T k)).
+
+  Lemma tree_inv_snd t T k : tree_inv t T -> good_key k -> option_map snd (getk leafv re_match t k) = nonempty (T k).
+  Proof. intros I G. rewrite (I k G). destruct (nonempty (T k)); reflexivity. Qed.
+
+  Lemma own_leaf_inv t T k : tree_inv t T -> good_key k -> own_leaf re_match t k = nonempty (T k).
+  Proof.
+    intros I G. unfold own_leaf. pose proof (I k G) as H. unfold getk in H. rewrite H.
+    destruct (nonempty (T k)); cbn [option_map]; [rewrite beq_refl|]; reflexivity.
+  Qed.
 
   Definition refines (rt : router) (S : astate) : Prop :=
     pre rt = s_pre S /\ post rt = s_post S /\ wf leafv (tree rt) /\ tree_inv (tree rt) (s_tree S).
@@ -313,20 +324,11 @@ Section Refine.
     b = b' /\ wf leafv t' /\ tree_inv t' T'.
   Proof.
     intros W I G. unfold add_tree_rule, a_add_tree.
-    pose proof (I host G) as Ih. unfold getk in Ih.
-    destruct (lookup_mut re_match t host false) as [[k0 paths]|] eqn:EL; cbn [option_map snd] in Ih.
-    - assert (ET : T host = paths).
-      { unfold nonempty in Ih. destruct (is_nil (T host)); [discriminate|]. congruence. }
-      rewrite ET. destruct (existsb (same_leaf p m) paths); [auto|].
-      split; [reflexivity|]. split; [apply wf_modify_k; assumption|].
-      intros k Gk. unfold upd. destruct (beq k host) eqn:E.
-      + apply beq_eq in E; subst k. rewrite getk_modify_same by assumption.
-        unfold getk. rewrite EL. cbn [option_map fst snd]. rewrite nonempty_app. reflexivity.
-      + apply beq_neq in E. rewrite getk_modify_other by (auto; congruence). apply I; exact Gk.
-    - assert (ET : T host = []).
-      { unfold nonempty in Ih. destruct (T host); [reflexivity|discriminate]. }
+    rewrite (own_leaf_inv t T host I G). pose proof (I host G) as Ih.
+    unfold nonempty in *. destruct (is_nil (T host)) eqn:EN; cbn [option_map] in Ih.
+    - assert (ET : T host = []) by (destruct (T host); [reflexivity|discriminate]).
       rewrite ET. cbn [existsb app].
-      pose proof (insert_ok_absent leafv re_ok re_match t host [(p, m, r)] G W EL) as OK.
+      pose proof (insert_ok_absent leafv re_ok re_match t host [(p, m, r)] G W Ih) as OK.
       pose proof (wf_insert_k leafv re_ok t host [(p, m, r)] G W) as W'.
       destruct (insert re_ok t host [(p, m, r)]) as [t' res] eqn:EI. cbn [snd fst] in *. subst res.
       split; [reflexivity|]. split; [exact W'|].
@@ -336,6 +338,12 @@ Section Refine.
       + apply beq_neq in E.
         pose proof (getk_insert_other leafv re_ok re_match t host k [(p, m, r)] G Gk ltac:(congruence) W) as O.
         rewrite EI in O. cbn [fst] in O. rewrite O. apply I; exact Gk.
+    - destruct (existsb (same_leaf p m) (T host)); [auto|].
+      split; [reflexivity|]. split; [apply wf_modify_k; assumption|].
+      intros k Gk. unfold upd. destruct (beq k host) eqn:E.
+      + apply beq_eq in E; subst k. rewrite getk_modify_same by assumption. rewrite Ih.
+        cbn [option_map fst snd]. destruct (T host); reflexivity.
+      + apply beq_neq in E. rewrite getk_modify_other by (auto; congruence). apply I; exact Gk.
   Qed.
 
   Lemma del_tree_refines t T host p m :
@@ -344,30 +352,26 @@ Section Refine.
     tree_inv (remove_tree_rule re_match t host p m) (a_del_tree T host p m).
   Proof.
     intros W I G. unfold remove_tree_rule, a_del_tree.
-    pose proof (I host G) as Ih. unfold getk in Ih.
-    destruct (lookup_mut re_match t host false) as [[k0 paths]|] eqn:EL; cbn [option_map snd] in Ih.
-    - assert (ET : T host = paths).
-      { unfold nonempty in Ih. destruct (is_nil (T host)); [discriminate|]. congruence. }
-      rewrite ET. set (keep := filter (fun e => negb (same_leaf p m e)) paths).
+    rewrite (own_leaf_inv t T host I G). pose proof (I host G) as Ih.
+    unfold nonempty in Ih |- *. destruct (is_nil (T host)) eqn:EN; cbn [option_map] in Ih.
+    - assert (ET : T host = []) by (destruct (T host); [reflexivity|discriminate]).
+      split; [exact W|]. intros k Gk. unfold upd, nonempty. destruct (beq k host) eqn:E.
+      + apply beq_eq in E; subst k. rewrite ET. cbn [filter is_nil option_map]. exact Ih.
+      + rewrite (I k Gk). reflexivity.
+    - set (keep := filter (fun e => negb (same_leaf p m e)) (T host)).
       set (t1 := modify_mut re_match t host false (fun _ => keep)).
       assert (W1 : wf leafv t1) by (apply wf_modify_k; assumption).
       destruct (is_nil keep) eqn:EK.
       + split; [apply wf_remove_k; assumption|].
-        intros k Gk. unfold upd. destruct (beq k host) eqn:E.
-        * apply beq_eq in E; subst k. rewrite getk_remove_same by assumption.
-          unfold nonempty. rewrite EK. reflexivity.
+        intros k Gk. unfold upd, nonempty. destruct (beq k host) eqn:E.
+        * apply beq_eq in E; subst k. rewrite getk_remove_same by assumption. rewrite EK. reflexivity.
         * apply beq_neq in E. rewrite getk_remove_other by (auto; congruence).
-          unfold t1. rewrite getk_modify_other by (auto; congruence). apply I; exact Gk.
+          unfold t1. rewrite getk_modify_other by (auto; congruence). rewrite (I k Gk). reflexivity.
       + split; [exact W1|].
-        intros k Gk. unfold upd. destruct (beq k host) eqn:E.
-        * apply beq_eq in E; subst k. unfold t1. rewrite getk_modify_same by assumption.
-          unfold getk. rewrite EL. cbn [option_map fst snd]. unfold nonempty. rewrite EK. reflexivity.
-        * apply beq_neq in E. unfold t1. rewrite getk_modify_other by (auto; congruence). apply I; exact Gk.
-    - assert (ET : T host = []).
-      { unfold nonempty in Ih. destruct (T host); [reflexivity|discriminate]. }
-      split; [exact W|]. intros k Gk. unfold upd. destruct (beq k host) eqn:E.
-      + apply beq_eq in E; subst k. rewrite ET. cbn [filter]. rewrite I by exact Gk. rewrite ET. reflexivity.
-      + apply I; exact Gk.
+        intros k Gk. unfold upd, nonempty. destruct (beq k host) eqn:E.
+        * apply beq_eq in E; subst k. unfold t1. rewrite getk_modify_same by assumption. rewrite Ih.
+          cbn [option_map fst snd]. rewrite EK. reflexivity.
+        * apply beq_neq in E. unfold t1. rewrite getk_modify_other by (auto; congruence). rewrite (I k Gk). reflexivity.
   Qed.
 
   (** tree frontends of a history are on plain, storable hostnames *)
@@ -450,7 +454,7 @@ Section Refine.
     rewrite (lookup_getk leafv re_match (tree rt) h G NS W).
     assert (GW : good_key (wild_of h)).
     { apply good_key_wild. apply (good_key_parts h G). }
-    pose proof (I h G) as Ih. pose proof (I (wild_of h) GW) as Iw.
+    pose proof (tree_inv_snd _ _ h I G) as Ih. pose proof (tree_inv_snd _ _ (wild_of h) I GW) as Iw.
     unfold a_rules.
     destruct (getk leafv re_match (tree rt) h) as [[k0 rules]|]; cbn [option_map snd] in Ih.
     - rewrite <- Ih. reflexivity.
@@ -744,19 +748,12 @@ Section History.
   Qed.
 End History.
 
-(** regex-segment hostnames: insertion order matters (known finding) *)
+(** regex-segment hostnames (outside [plain_history]): the witness of the
+    former order dependence; since the fixes in pattern_trie.rs both orders
+    route alike *)
 Definition w_re_a_com : bytes := [47; 114; 47; 46; 97; 46; 99; 111; 109]%N.              (* "/r/.a.com" *)
 Definition w_w_re_a_com : bytes := [119; 46; 47; 114; 47; 46; 97; 46; 99; 111; 109]%N.   (* "w./r/.a.com" *)
 Definition w_xyz_a_com : bytes := [120; 121; 122; 46; 97; 46; 99; 111; 109]%N.          (* "xyz.a.com" *)
-
-Lemma regex_hosts_order_refuted_lemma :
-  exists f1 f2 h path m,
-    route_lookup (fun _ _ => true) (run (fun _ => true) (fun _ _ => true) [OAdd f1; OAdd f2]) h path m
-    <> route_lookup (fun _ _ => true) (run (fun _ => true) (fun _ _ => true) [OAdd f2; OAdd f1]) h path m.
-Proof.
-  exists (w_front w_w_re_a_com [47]%N [48]%N), (w_front w_re_a_com [47]%N [49]%N), w_xyz_a_com, [47]%N, [71]%N.
-  vm_compute. discriminate.
-Qed.
 
 (** ** pre / post lists: order and identity *)
 Lemma remove_first_spec {A} (f : A -> bool) (l : list A) :
